@@ -759,3 +759,55 @@ func ruleDocumentFilter(r *Run, rule string) {
 	r.Check(okEl, rule, "filter:eligible", w.Pos(el.Pos())+" "+w.Name(el), "eligible ⇔ filter is nil ∨ bitmap.Contains(id) in all 3 states", "IsEligible differs from nil ∨ Contains(bitmap,id): "+strings.Join(badEl, "; "))
 	r.Check(okSkip, rule, "filter:skip", w.Pos(sk.Pos())+" "+w.Name(sk), "skip ⇔ ¬(nil ∨ listed) in all 3 states", "ShouldSkip is not the negation of IsEligible for the same id: "+strings.Join(badSk, "; "))
 }
+
+// ruleQueryPreprocessed: in the per-query routine the raw query parameter is used only for its length and as the argument
+// of the metric's Preprocess; every other use (indexing, slicing, distance evaluation) must go through the preprocessed
+// copy — whoever the query came from (direct vector or the stored vector of a node id).
+func ruleQueryPreprocessed(r *Run, rule string, k *vecKind) {
+	w := r.W
+	fn := k.Single
+	name := w.Name(fn)
+	r.Doc(rule, "a query vector reaches the distance computation without the metric's preprocessing (cosine: un-normalised): wrong scores for node-id or direct queries")
+	if len(fn.Params) < 2 {
+		r.Unres(rule, k.Name+":query-param", "per-query routine has no query parameter")
+		return
+	}
+	bad := ""
+	pre := 0
+	var check func(g *ssa.Function, p *ssa.Parameter, depth int)
+	check = func(g *ssa.Function, p *ssa.Parameter, depth int) {
+		refs := p.Referrers()
+		if refs == nil {
+			return
+		}
+		for _, ref := range *refs {
+			switch x := ref.(type) {
+			case *ssa.DebugRef:
+			case *ssa.Call:
+				if b, ok := x.Call.Value.(*ssa.Builtin); ok && b.Name() == "len" {
+					continue
+				}
+				if x.Call.IsInvoke() && x.Call.Method.Name() == "Preprocess" {
+					pre++
+					continue
+				}
+				// handed to a method of the same search object: the same rule for its parameter
+				if h := staticCallee(x.Common()); h != nil && h.Pkg == w.SPkg && depth < 2 {
+					for i, a := range x.Call.Args {
+						if a == ssa.Value(p) && i < len(h.Params) {
+							check(h, h.Params[i], depth+1)
+						}
+					}
+					continue
+				}
+				bad = w.InstrPos(ref)
+			default:
+				bad = w.InstrPos(ref)
+			}
+		}
+	}
+	check(fn, fn.Params[1], 0)
+	site := w.Pos(fn.Pos()) + " " + name
+	r.Check(bad == "" && pre > 0, rule, k.Name+":query-preprocessed", site, "the raw query is only measured (len) and preprocessed; all computation uses the preprocessed vector",
+		fmt.Sprintf("the raw query is used at %s without preprocessing (Preprocess calls on it: %d)", bad, pre))
+}
